@@ -10,7 +10,7 @@
 From Coq Require Import List ZArith NArith Bool Sorted Permutation.
 From Storage Require Import Base.Bytes Query.Compare Query.CompareProofs Query.Paging Query.PagingProofs
   Query.ScanUnique Query.ScanUniqueProofs Query.ScanSort Query.ScanSortProofs
-  Query.ScalarFilter Query.ObjectScan Query.ObjectScanProofs.
+  Query.ScalarFilter Query.ObjectScan Query.ObjectScanProofs Query.ObjectSession Query.ObjectSessionProofs.
 Import ListNotations.
 Open Scope Z_scope.
 
@@ -37,6 +37,27 @@ Theorem objectz_order_irrelevant : forall (f : sfilter) (fs : list sort_field) (
   objectz_query f fs p objs = objectz_query f fs p objs'.
 Proof. exact objectz_order_irrelevant_lemma. Qed.
 Print Assumptions objectz_order_irrelevant.
+
+(* SESSIONS (Query/ObjectSession.v): a sequence of queries on one object store value, the collection possibly
+   changing in between.  The answer to a query is the answer to that query on the collection of that moment ... *)
+Theorem objectz_session_pointwise : forall (pre post : list ostep) (s : ostep),
+  nth_error (objectz_session (pre ++ s :: post)) (length pre) = Some (objectz_answer s).
+Proof. exact objectz_session_pointwise_lemma. Qed.
+Print Assumptions objectz_session_pointwise.
+
+(* ... independent of what was asked before (and after) on the same store, and of the collections then *)
+Theorem objectz_session_independent : forall (pre pre' post post' : list ostep) (s : ostep),
+  nth_error (objectz_session (pre ++ s :: post)) (length pre) =
+  nth_error (objectz_session (pre' ++ s :: post')) (length pre').
+Proof. exact objectz_session_independent_lemma. Qed.
+Print Assumptions objectz_session_independent.
+
+(* ... and the whole session equals the session of the same texts on a bolt store that holds the same values at
+   every step (same_values: same query, ids ascending and NaN-free on the bolt side, a permutation on the object side) *)
+Theorem objectz_session_eq_boltz : forall (bs : list bstep) (os : list ostep),
+  Forall2 same_values bs os -> objectz_session os = boltz_session bs.
+Proof. exact objectz_session_eq_boltz_lemma. Qed.
+Print Assumptions objectz_session_eq_boltz.
 
 (* `= null` holds exactly for the objects whose field has no value, `!= null` for the others *)
 Theorem null_test_exact : forall (r : row) (c : colref),
